@@ -443,7 +443,7 @@ def main(argv=None):
 
     wall = time.time() - t0
     # 4. evidence
-    if not a.only:
+    if not a.only and not os.environ.get("VERIF_NO_EVIDENCE"):
         ev = dict(
             property_id=pid,
             tier=a.tier,
